@@ -172,7 +172,7 @@ func c18State(r *fw.Rand) (*protocol.ResolutionModel, map[string]interface{}) {
 	}
 	if r.Chance(1, 3) {
 		var l []interface{}
-		for _, u := range genPick(r, gen.URIPool, r.Range(1, 3)) {
+		for _, u := range gen.PickURIs(r, r.Range(1, 3)) {
 			l = append(l, u)
 		}
 		doc["alsoKnownAs"] = l
